@@ -427,7 +427,7 @@ def subst_a_ok(x, F, FA, dep, n):
     if k == 'sagg':
         return subst_a_ok(x, F, FA, dep, n[2])
     if k in ('agglet', 'aggexplode'):
-        return subst_ok(x, F, FA, dep, n[2]) and (n[1] == x or (n[1] not in F and subst_a_ok(x, F, FA, dep, n[3])))
+        return subst_ok(x, F, FA, dep, n[2]) and (n[1] == x or x not in fva(n[3]) or (n[1] not in F and subst_a_ok(x, F, FA, dep, n[3])))
     if k in ('aggfilter', 'agggroupby'):
         return subst_ok(x, F, FA, dep, n[1]) and subst_a_ok(x, F, FA, dep, n[2])
     if k == 'agg':
